@@ -475,7 +475,10 @@ class Interp:
         self.trace = bool(os.environ.get("MIRSYM_TRACE"))
         self.assumptions = []          # global facts about the symbolic inputs (z3 Bools)
         self.no_merge = False          # pure path forking (used where merged states would need unions of maps)
+        self.hash_order = None         # None: order-sensitive use of a HashMap iterator is unsupported; 'fwd'/'rev'/'rot': that order
+        self.nondet_reads = []         # reads of process-specific values (pid, ...)
         self.clock_reads = []          # symbolic instants returned by SystemTime::now(), in call order
+        self.global_cells = {}         # mutable statics
         self.fn_hooks = {}             # crate fn name -> hook(I, args, st) -> value | None (inductive hypotheses)
         from . import stdmodel, winnow
         stdmodel.register(self)
@@ -546,7 +549,7 @@ class Interp:
             keys.update(s.store.keys())
         store = {}
         for k in keys:
-            if k not in st0.store and k[0] != "heap":
+            if k not in st0.store and k[0] not in ("heap", "static"):
                 continue          # frame cells created by the callee are dead after return (heap cells survive)
             vals = [s.store.get(k) for s, _ in paths]
             v0 = vals[0]
@@ -873,6 +876,14 @@ class Interp:
             if m_ and m_.group(1) in (self.P.funcs.allocs or {}):
                 cf = self.P.find_const(self.P.funcs.allocs[m_.group(1)], fr.fn)
                 if cf is not None:
+                    if re.search(r"Atomic|Mutex|RefCell|\bCell<|OnceLock|OnceCell|LazyLock", cf.ret or "") or cf.header.startswith("static mut"):
+                        # a mutable process-global: one cell for the whole run (shared by every call)
+                        key = ("static", cf.name)
+                        if key not in self.global_cells:
+                            self.global_cells[key] = self.eval_const_item(cf)
+                        if key not in st.store:
+                            st.store[key] = self.global_cells[key]
+                        return Ref(key, ())
                     return ValRef(self.eval_const_item(cf))
             if text.startswith("{") and text.endswith("}"):
                 raise Unsupported("const " + text)
